@@ -51,6 +51,8 @@ def configs(tier):
         for table in ("default", "subclass", "titlefmt", "arrows", "mi"):
             if tier == "quick" and cs != ["DE", "UE"] and table in ("titlefmt", "mi"):
                 continue
+            if len(cs) > 2 and table not in ("default", "subclass"):
+                continue
             out.append({"classes": cs, "table": table})
     return out
 
